@@ -4,11 +4,15 @@ import (
 	"bytes"
 	"context"
 	"fmt"
+	"github.com/bartossh/Computantis/src/protobufcompiled"
 	"github.com/bartossh/Computantis/src/serializer"
+	"github.com/bartossh/Computantis/src/transaction"
+	"github.com/bartossh/Computantis/src/transformers"
 	"math/big"
 	"math/rand"
 	"strings"
 	"time"
+	"verifharness/svc"
 
 	"github.com/bartossh/Computantis/src/accountant"
 	"github.com/bartossh/Computantis/src/spice"
@@ -238,9 +242,130 @@ func c04Offer(world *ledger.World, n *ledger.Node, m *mutant, state string) {
 	}
 }
 
+// c04Service: the same mutation engine on transactions that enter a whole node (notary, gossip, awaiting cache, real
+// ledger) as awaiting contracts or proposals: through gossip.GossipTrx and notary.Propose. An altered transaction must
+// leave neither the ledger nor the awaiting lists changed - whatever the handler answers (a repeated hash is answered
+// without an error by the duplicate suppression, so every mutant gets a base transaction of its own).
+func c04Service(w *core.WorkerCtx) {
+	r := w.R
+	rng := core.Rand(w.Seed, "C04svc", w.Batch)
+	rig, err := svc.New(4, 60, 2048)
+	if err != nil {
+		r.Inconc("cannot build the node: " + err.Error())
+		return
+	}
+	defer rig.Close()
+	ctx := context.Background()
+	u := rig.Users
+	foreign := ledger.NewActor("foreign")
+	for i := 1; i < len(u); i++ {
+		t := ledger.ForgeTrx(u[0], u[i].Addr, fmt.Sprintf("fund %d", i), nil, spice.Melange{Currency: 1000}, time.Now().Add(-time.Minute))
+		if p, err := transformers.TrxToProtoTrx(t); err == nil {
+			rig.Notary.Propose(ctx, p)
+		}
+	}
+	var gen accountant.Vertex
+	if s, err := ledger.TakeSnap(rig.Book); err == nil {
+		for _, l := range s.Live {
+			gen = l.V
+			break
+		}
+	}
+	n := w.Pick(120, 1200)
+	seq := 0
+	mkBase := func(kind int) transaction.Transaction {
+		seq++
+		var data []byte
+		amt := spice.Melange{SupplementaryCurrency: uint64(1 + rng.Intn(1000))}
+		switch kind % 3 {
+		case 0:
+			data, amt = []byte(fmt.Sprintf("contract %d", seq)), spice.Melange{}
+		case 1:
+			data = []byte(fmt.Sprintf("contract with spice %d", seq))
+		}
+		return ledger.ForgeTrx(u[1+seq%2], u[3-seq%2].Addr, fmt.Sprintf("svc base %d", seq), data, amt, time.Now().Add(-time.Minute))
+	}
+	for k := 0; k < n; k++ {
+		bt := mkBase(k)
+		ot := mkBase(k + 1)
+		base := ledger.ForgeVertex(rig.PeerAct[0], bt, gen.Hash, gen.Hash, 2, time.Now().Add(-time.Second))
+		other := ledger.ForgeVertex(rig.PeerAct[1], ot, gen.Hash, gen.Hash, 2, time.Now().Add(-time.Second))
+		muts := c04Mutants(rng, &base, &other, foreign, false)
+		// keep the mutants that alter the transaction itself
+		var tm []*mutant
+		for i := range muts {
+			vv := base
+			vv.Transaction = muts[i].v.Transaction
+			if ledger.Fingerprint(&vv) == ledger.Fingerprint(&base) {
+				continue
+			}
+			if strings.HasPrefix(muts[i].class, "boundary-shift") || muts[i].class == "receiver-signature-stripped" {
+				continue // the two known findings, judged on the gossip path of vertices
+			}
+			if ok, _ := ledger.TrxAuthentic(&muts[i].v.Transaction); ok {
+				continue // another valid transaction put in the place of this one: on its own it is not an alteration
+			}
+			tm = append(tm, &muts[i])
+		}
+		if len(tm) == 0 {
+			continue
+		}
+		m := tm[(k*7+rng.Intn(3))%len(tm)]
+		mt := m.v.Transaction
+		p, err := transformers.TrxToProtoTrx(mt)
+		if err != nil {
+			r.Count("c04_service_mutants_refused_by_the_converter", 1)
+			continue
+		}
+		addrs := []string{bt.IssuerAddress, bt.ReceiverAddress, mt.IssuerAddress, mt.ReceiverAddress, foreign.Addr}
+		before, err := rig.State(addrs)
+		if err != nil {
+			r.Inconc("cannot read the node's state: " + err.Error())
+			return
+		}
+		entry := []string{"gossip.GossipTrx", "notary.Propose"}[k%2]
+		w.Mark("c04 service mutant %d: %s through %s", k, m.class, entry)
+		var cerr error
+		if k%2 == 0 {
+			_, cerr = rig.Gossip.GossipTrx(ctx, &protobufcompiled.TrxMsgGossip{Trx: p})
+		} else {
+			_, cerr = rig.Notary.Propose(ctx, p)
+		}
+		time.Sleep(300 * time.Microsecond) // handlers finish parts of their work in goroutines
+		after, err := rig.State(addrs)
+		if err != nil {
+			r.Inconc("cannot read the node's state: " + err.Error())
+			return
+		}
+		r.Eval(1)
+		r.Count("c04_service_mutants", 1)
+		r.Nontriv(fmt.Sprintf("service/%s/%s/refused=%v", entry, m.class, cerr != nil))
+		// an awaiting contract is not expected to carry the receiver's signature yet (the handlers verify the issuer and
+		// the receiver's own Confirm replaces the field): an altered receiver signature alone is judged by the ledger only
+		rs := bt
+		rs.ReceiverSignature = mt.ReceiverSignature
+		onlyReceiverSig := len(trxDiff(&rs, &mt)) == 0
+		if onlyReceiverSig && before.Snap.Digest() == after.Snap.Digest() {
+			if before.Rest != after.Rest {
+				r.Count("c04_service_awaiting_entries_with_an_altered_receiver_signature", 1)
+				rig.Cache.RemoveAwaitedTransaction(mt.Hash, mt.ReceiverAddress)
+			}
+			continue
+		}
+		if ok, why := svc.SameOrOnlyTipsDropped(before, after); !ok {
+			r.Violate("C04", "accepted/service/"+m.class, fmt.Sprintf("a transaction altered by [%s] was handed to %s (answer: %v): the node's state changed: %s", m.desc, entry, cerr, why), nil)
+			// take it out again so that later cases start clean
+			rig.Cache.RemoveAwaitedTransaction(mt.Hash, mt.ReceiverAddress)
+		}
+	}
+}
+
 func c04Worker(w *core.WorkerCtx) {
 	if w.Batch == 0 {
 		c04Addresses(w)
+	}
+	if w.Batch == 1 || (w.Thorough() && w.Batch%8 == 1) {
+		c04Service(w)
 	}
 	rng := core.Rand(w.Seed, "C04", w.Batch)
 	desc := fmt.Sprintf("c04 mutation engine seed=%d batch=%d", w.Seed, w.Batch)
